@@ -36,6 +36,9 @@ pub fn all(seed: u64) -> Vec<Scenario> {
     for p in ["C02", "C03", "C04", "C05", "C06", "C07", "C08", "C10", "C11", "C12"] {
         v.extend(shared::generated(p, seed, 30, 200));
     }
+    // C01 as a monitor on engine-driven histories
+    v.extend(shared::generated("C01", seed, 20, 200));
+    v.extend(shared::c01_engine(seed));
     v.extend(shared::faults(seed));
     v.extend(shared::fees(seed));
     v.extend(shared::c04(seed));
